@@ -1043,8 +1043,10 @@ func runRequests(c RCase) (map[string]int, error) {
 				timeout = time.Duration(r.T) * time.Millisecond
 			}
 			if r.B == "held" {
-				// "arrived within the timeout" needs a timeout that has not passed yet when the reply arrives
-				timeout = time.Duration(max(r.T, 5)) * time.Millisecond
+				// the reply is there before Result() is called, so it has "arrived within the timeout" however
+				// short that is - also when the deadline has passed by the time Result() looks (T = 0, or a
+				// goroutine that is not scheduled for a while: finding F22)
+				timeout = time.Duration(r.T) * time.Millisecond
 			}
 			rq := reqMsg{Token: i, B: r.B, replied: make(chan struct{}), again: make(chan struct{}), done: make(chan struct{})}
 			var rs *actor.Response
